@@ -180,7 +180,26 @@ func (smpl *Simple[Type]) main() {
 	case <-smpl.breaker.IsBreaked():
 	case <-smpl.opts.Ctx.Done():
 	case <-smpl.graceful.IsBreaked():
-		smpl.priority.GracefulStop()
+		// rough stop and context cancellation must be honoured also while
+		// the graceful stop of the priority discipline is pending
+		stopped := make(chan struct{})
+
+		smpl.wg.Add(1)
+
+		go func() {
+			defer smpl.wg.Done()
+			defer close(stopped)
+
+			smpl.priority.GracefulStop()
+		}()
+
+		select {
+		case <-smpl.breaker.IsBreaked():
+			return
+		case <-smpl.opts.Ctx.Done():
+			return
+		case <-stopped:
+		}
 
 		// discipline may have terminated because of an error rather than because of
 		// the graceful stop, this error must not be lost
